@@ -957,6 +957,247 @@ FNS = {
 }
 
 
+
+# ---- more str methods over code-point vectors (patterns: &str or char)
+def _pat(x, p):
+    p = x.deref(p)
+    if isinstance(p, CharV):
+        return [p.t]
+    return list(x.to_vstr(p).c)
+
+
+def _match_at(s, i, pat):
+    if i + len(pat) > len(s):
+        return False
+    if not pat:
+        return True
+    return z3.And([s[i + j] == pat[j] for j in range(len(pat))])
+
+
+def _find(x, s, pat, reverse=False):
+    """index of the first (last) match, forking; None if no match"""
+    rng = range(len(s) - len(pat), -1, -1) if reverse else range(0, len(s) - len(pat) + 1)
+    for i in rng:
+        if x.branch(_match_at(s, i, pat)):
+            return i
+    return None
+
+
+def m_split_once(x, r, a, e):
+    s = x.to_vstr(r).c
+    pat = _pat(x, a[0])
+    i = _find(x, s, pat)
+    if i is None:
+        return NONE
+    return Some((VStr(s[:i]), VStr(s[i + len(pat):])))
+
+
+def m_rsplit_once(x, r, a, e):
+    s = x.to_vstr(r).c
+    pat = _pat(x, a[0])
+    i = _find(x, s, pat, reverse=True)
+    if i is None:
+        return NONE
+    return Some((VStr(s[:i]), VStr(s[i + len(pat):])))
+
+
+def m_trim_start_matches(x, r, a, e):
+    s = list(x.to_vstr(r).c)
+    pat = _pat(x, a[0])
+    if not pat:
+        return VStr(s)
+    while len(s) >= len(pat) and x.branch(_match_at(s, 0, pat)):
+        s = s[len(pat):]
+    return VStr(s)
+
+
+def m_trim_end_matches(x, r, a, e):
+    s = list(x.to_vstr(r).c)
+    pat = _pat(x, a[0])
+    if not pat:
+        return VStr(s)
+    while len(s) >= len(pat) and x.branch(_match_at(s, len(s) - len(pat), pat)):
+        s = s[:len(s) - len(pat)]
+    return VStr(s)
+
+
+def m_strip_suffix(x, r, a, e):
+    s = x.to_vstr(r).c
+    pat = _pat(x, a[0])
+    if len(s) < len(pat):
+        return NONE
+    if x.branch(_match_at(s, len(s) - len(pat), pat)):
+        return Some(VStr(s[:len(s) - len(pat)]))
+    return NONE
+
+
+def m_vstr_starts_with(x, r, a, e):
+    return _match_at(x.to_vstr(r).c, 0, _pat(x, a[0]))
+
+
+def m_vstr_ends_with(x, r, a, e):
+    s = x.to_vstr(r).c
+    pat = _pat(x, a[0])
+    if len(s) < len(pat):
+        return False
+    return _match_at(s, len(s) - len(pat), pat)
+
+
+def m_vstr_contains(x, r, a, e):
+    s = x.to_vstr(r).c
+    pat = _pat(x, a[0])
+    alts = [_match_at(s, i, pat) for i in range(0, len(s) - len(pat) + 1)]
+    alts = [al for al in alts if al is not False]
+    if not alts:
+        return False
+    if any(al is True for al in alts):
+        return True
+    return z3.Or(alts)
+
+
+def m_vstr_find(x, r, a, e):
+    i = _find(x, x.to_vstr(r).c, _pat(x, a[0]))
+    return NONE if i is None else Some(BV(bv64(i), 64))
+
+
+def m_vstr_rfind(x, r, a, e):
+    i = _find(x, x.to_vstr(r).c, _pat(x, a[0]), reverse=True)
+    return NONE if i is None else Some(BV(bv64(i), 64))
+
+
+def m_vstr_split(x, r, a, e):
+    s = x.to_vstr(r).c
+    pat = _pat(x, a[0])
+    out, start, p = [], 0, 0
+    while p + len(pat) <= len(s) and pat:
+        if x.branch(_match_at(s, p, pat)):
+            out.append(VStr(s[start:p]))
+            p += len(pat)
+            start = p
+        else:
+            p += 1
+    out.append(VStr(s[start:]))
+    return IterV(out)
+
+
+def m_vstr_rsplit(x, r, a, e):
+    it = m_vstr_split(x, r, a, e)
+    return IterV(list(reversed(it.items)))
+
+
+def m_vstr_trim(x, r, a, e):
+    ws = [9, 10, 11, 12, 13, 32]
+    s = list(x.to_vstr(r).c)
+    while s and x.branch(z3.Or([s[0] == w for w in ws])):
+        s = s[1:]
+    while s and x.branch(z3.Or([s[-1] == w for w in ws])):
+        s = s[:-1]
+    return VStr(s)
+
+
+def m_vstr_splitn_generic(x, r, a, e):
+    return m_vstr_splitn(x, r, a, e)
+
+
+def m_vstr_rsplitn_generic(x, r, a, e):
+    n = a[0].v if isinstance(a[0], IntLit) else x.concrete_index(a[0], 8)
+    pat = _pat(x, a[1])
+    s = x.to_vstr(r).c
+    out = []
+    end = len(s)
+    p = len(s) - len(pat)
+    while len(out) < n - 1 and p >= 0 and pat:
+        if x.branch(_match_at(s, p, pat)):
+            out.append(VStr(s[p + len(pat):end]))
+            end = p
+            p -= len(pat)
+        else:
+            p -= 1
+    out.append(VStr(s[:end]))
+    return IterV(out)
+
+
+METHODS.update({
+    ('VStr', 'split_once'): m_split_once, ('VStr', 'rsplit_once'): m_rsplit_once,
+    ('VStr', 'trim_start_matches'): m_trim_start_matches, ('VStr', 'trim_end_matches'): m_trim_end_matches,
+    ('VStr', 'strip_suffix'): m_strip_suffix, ('VStr', 'starts_with'): m_vstr_starts_with, ('VStr', 'ends_with'): m_vstr_ends_with,
+    ('VStr', 'contains'): m_vstr_contains, ('VStr', 'find'): m_vstr_find, ('VStr', 'rfind'): m_vstr_rfind,
+    ('VStr', 'split'): m_vstr_split, ('VStr', 'rsplit'): m_vstr_rsplit, ('VStr', 'trim'): m_vstr_trim,
+    ('VStr', 'rsplitn'): m_vstr_rsplitn_generic,
+})
+
+
+
+# ---- Option / Result combinators
+def m_opt_filter(x, r, a, e):
+    r0 = x.deref(r)
+    if isinstance(r0, IterV):
+        return m_filter(x, r0, a, e)
+    if r0.variant == 'Some' and x.branch(x.call_closure(a[0], [r0.f[0]])):
+        return r0
+    return NONE
+
+
+def m_opt_or(x, r, a, e):
+    r0 = x.deref(r)
+    return r0 if r0.variant in ('Some', 'Ok') else a[0]
+
+
+def m_opt_or_else(x, r, a, e):
+    r0 = x.deref(r)
+    if r0.variant in ('Some', 'Ok'):
+        return r0
+    return x.call_closure(a[0], [] if r0.variant == 'None' else [r0.f[0]])
+
+
+def m_is_some_and(x, r, a, e):
+    r0 = x.deref(r)
+    if r0.variant in ('Some', 'Ok'):
+        return x.call_closure(a[0], [r0.f[0]])
+    return False
+
+
+def m_map_or(x, r, a, e):
+    r0 = x.deref(r)
+    if r0.variant in ('Some', 'Ok'):
+        return x.call_closure(a[1], [r0.f[0]])
+    return a[0]
+
+
+def m_map_or_else(x, r, a, e):
+    r0 = x.deref(r)
+    if r0.variant in ('Some', 'Ok'):
+        return x.call_closure(a[1], [r0.f[0]])
+    return x.call_closure(a[0], [] if r0.variant == 'None' else [r0.f[0]])
+
+
+def m_ok_or(x, r, a, e):
+    r0 = x.deref(r)
+    return Ok(r0.f[0]) if r0.variant == 'Some' else Err(a[0])
+
+
+def m_ok_or_else(x, r, a, e):
+    r0 = x.deref(r)
+    return Ok(r0.f[0]) if r0.variant == 'Some' else Err(x.call_closure(a[0], []))
+
+
+def m_xor(x, r, a, e):
+    p, q = x.deref(r), x.deref(a[0])
+    if p.variant == 'Some' and q.variant == 'None':
+        return p
+    if p.variant == 'None' and q.variant == 'Some':
+        return q
+    return NONE
+
+
+METHODS.update({
+    ('EnumV', 'filter'): m_opt_filter, ('EnumV', 'or'): m_opt_or, ('EnumV', 'or_else'): m_opt_or_else,
+    ('EnumV', 'is_some_and'): m_is_some_and, ('EnumV', 'is_ok_and'): m_is_some_and, ('EnumV', 'map_or'): m_map_or,
+    ('EnumV', 'map_or_else'): m_map_or_else, ('EnumV', 'ok_or'): m_ok_or, ('EnumV', 'ok_or_else'): m_ok_or_else,
+    ('EnumV', 'xor'): m_xor, ('EnumV', 'is_none_or'): lambda x, r, a, e: True if x.deref(r).variant == 'None' else x.call_closure(a[0], [x.deref(r).f[0]]),
+})
+
+
 def install(x):
     x.method_models.update(METHODS)
     x.fn_models.update(FNS)
